@@ -874,7 +874,38 @@ pub fn cmd_helpers(args: &Args, out: &Out) {
             }
             _ => {
                 // socket time limit: zero means unlimited, otherwise the option value; observed through the public limit queries
-                let ms = match (case / 3) % 6 {
+                let kind = (case / 3) % 10;
+                if kind >= 6 {
+                    // limits at the edge of what fits into u64 nanoseconds, set through the hooked setsockopt (584 years and more; what
+                    // `set_read_timeout(Some(Duration::MAX))` hands down): the limit must be exact while it fits and saturate when it does not
+                    let (sec, usec): (i64, i64) = match kind {
+                        6 => (18_446_744_073, 709_551),
+                        7 => (18_446_744_074, 0),
+                        8 => (i64::MAX, 0),
+                        _ => (18_446_744_073, 999_999),
+                    };
+                    let snd = (case / 30) % 2 == 1;
+                    out.begin(case, jobj! {"fn" => if snd {"send_time_limit"} else {"recv_time_limit"}, "option" => format!("tv_sec={sec} tv_usec={usec} through the hooked setsockopt")});
+                    let (fd, peer) = socketpair();
+                    let t = libc::timeval { tv_sec: sec, tv_usec: usec };
+                    let name = if snd { libc::SO_SNDTIMEO } else { libc::SO_RCVTIMEO };
+                    let r = oc::setsockopt(None, fd, libc::SOL_SOCKET, name, std::ptr::from_ref(&t).cast(), size_of::<libc::timeval>() as socklen_t);
+                    let got = if snd { oc::send_time_limit(fd) } else { oc::recv_time_limit(fd) };
+                    let exact = u128::from(sec as u64) * 1_000_000_000 + u128::from(usec as u64) * 1_000;
+                    let want = u64::try_from(exact).unwrap_or(u64::MAX);
+                    let _ = peer;
+                    let fp = format!("limit-edge|{snd}|{kind}");
+                    if r != 0 {
+                        out.end(case, Verdict::Inconclusive, "harness/kernel-rejected-the-option", false, &fp, jobj! {"setsockopt" => i64::from(r), "errno" => errno()}, "");
+                    } else if got != want {
+                        out.end(case, Verdict::Violated, if exact > u128::from(u64::MAX) { "C28/socket-limit-wraps-instead-of-saturating" } else { "C28/socket-limit-wrong" }, true, &fp, jobj! {"limit_ns" => got}, &format!("tv_sec={sec} tv_usec={usec} -> limit {got} ns, expected {want}"));
+                        std::process::exit(3);
+                    } else {
+                        out.end(case, Verdict::Held, "", true, &fp, jobj! {"limit_ns" => got, "saturated" => got == u64::MAX}, "");
+                    }
+                    continue;
+                }
+                let ms = match kind {
                     0 => 0,
                     1 => 1,
                     2 => 999,
@@ -882,7 +913,7 @@ pub fn cmd_helpers(args: &Args, out: &Out) {
                     4 => 86_400_000,
                     _ => rng.below(10_000_000),
                 };
-                let snd = (case / 18) % 2 == 1;
+                let snd = (case / 30) % 2 == 1;
                 out.begin(case, jobj! {"fn" => if snd {"send_time_limit"} else {"recv_time_limit"}, "option_ms" => ms});
                 let (fd, peer) = socketpair();
                 let t = tv(ms);
@@ -893,7 +924,7 @@ pub fn cmd_helpers(args: &Args, out: &Out) {
                 let want = if ms == 0 { u64::MAX } else { native_limit(fd, name) };
                 // the runtime caches limits per descriptor number: keep the descriptors open so that no number repeats within this process
                 let _ = peer;
-                let fp = format!("limit|{snd}|{}", (case / 3) % 6);
+                let fp = format!("limit|{snd}|{kind}");
                 if got != want {
                     out.end(case, Verdict::Violated, if ms == 0 { "C28/zero-socket-limit-not-unlimited" } else { "C28/socket-limit-wrong" }, true, &fp, jobj! {"limit_ns" => got}, &format!("option {ms} ms -> limit {got} ns, expected {want}"));
                     // the per-fd cache is keyed by descriptor number; a wrong entry would poison later cases in this process
